@@ -83,8 +83,8 @@ TRObs ==
 LabSet == IF cfg.clustering THEN 0..(IF clus.K > 0 THEN clus.K - 1 ELSE 0) ELSE {0}
 
 RSObs ==
-    IF beta = 0 THEN {[slots |-> cur]}
-    ELSE {[slots |-> [i \in 1..NP |-> Slot(r[i], lb[i], TRUE)]] : r \in [1..NP -> Pool], lb \in [1..NP -> LabSet]}
+    IF beta = 0 THEN {[slots |-> cur, labelsFromModel |-> TRUE]}
+    ELSE {[slots |-> [i \in 1..NP |-> Slot(r[i], lb[i], TRUE)], labelsFromModel |-> TRUE] : r \in [1..NP -> Pool], lb \in [1..NP -> LabSet]}
 
 SWObs ==
     {[mask |-> m,
